@@ -29,7 +29,7 @@ func init() {
 		Rule: "random sequences (length <= 25) of AddRule/UpdateRule/RemoveRule/ReorderRules/AddPrincipal/UpdatePrincipal/RemovePrincipal on rule files and of root mutators (root/primary-rule-file principals and thresholds, global rules, propagation directives, controller/network repositories, hooks, GitHub apps) with valid and invalid arguments (reserved-prefix names, unknown principals, duplicate principal ids, thresholds <= 0 or > |principals|, duplicate names, the allow rule in a reorder), both schema versions. " +
 			"distinct = hash of the operation sequence; non-trivial = the sequence contains at least one accepted and one refused edit",
 		Assumptions: []string{
-			"cross-file rule-name uniqueness (repository API) is exercised by C12's API sequences, not here",
+			"cross-file rule-name uniqueness is checked through the repository API on real git (c13api.go): a few API sequences per shard",
 		},
 		MinNontrivial: 2000,
 		Run:           runC13,
@@ -734,9 +734,26 @@ func runC13(c *fw.Ctx) {
 			c13RunRoot(c, version, ops)
 		}
 	}
+	// repository API side (real git): rule-name uniqueness and reserved prefix
+	ra := c.Rand(uint64(1350 + c.Shard))
+	for i := 0; i < c.Pick(16, 640)/c.NShards; i++ {
+		ops := c13APIGen(ra)
+		c13APIRun(c, ops)
+		if i == 0 {
+			c.Sample(map[string]any{"kind": "api", "ops": ops})
+		}
+	}
 }
 
 func replayC13(c *fw.Ctx, raw json.RawMessage) error {
+	var ac c13APICase
+	if err := json.Unmarshal(raw, &ac); err == nil && len(ac.APIOps) > 0 {
+		for i, op := range ac.APIOps {
+			fmt.Printf("  %d: %+v\n", i, op)
+		}
+		c13APIRun(c, ac.APIOps)
+		return nil
+	}
 	var cs c13Case
 	if err := json.Unmarshal(raw, &cs); err != nil {
 		return err
